@@ -16,6 +16,9 @@ import "runtime"
 
 var _ = runtime.Gosched
 
+// no tree prints more than a few hundred lines: a program that goes on printing is stopped
+func init() { outLimit = 20000 }
+
 type T struct{ a int }
 
 type myErr struct{ c int }
@@ -69,7 +72,9 @@ func (g *treeGen) genFunc(i, total, depth int) {
 	nstmt := rapid.IntRange(1, 6).Draw(g.rt, "nstmt")
 	for s := 0; s < nstmt; s++ {
 		tag := fmt.Sprintf("%s.%d", name, s)
-		switch k := rapid.IntRange(0, 23).Draw(g.rt, "stmt"); k {
+		switch k := rapid.IntRange(0, 25).Draw(g.rt, "stmt"); k {
+		case 24, 25: // a resumption point in the function body: later panics and deferred calls happen in a resumed function
+			fmt.Fprintf(&g.sb, "\truntime.Gosched()\n\tx += 3\n\tout(\"%s resumed \" + itoa(x))\n", tag)
 		case 0, 1: // deferred call with arguments captured now
 			fmt.Fprintf(&g.sb, "\tdefer logi(\"%s defer-arg\", x)\n\tx += 7\n", tag)
 		case 2, 3, 4: // direct recover in a deferred closure
